@@ -1341,63 +1341,107 @@ func checkMergeResultEntityUse(c *Ctx) {
 				n++
 				c.Sites++
 				c.seeFn(funcName(fn))
+				blockGuarded := func(gfn *ssa.Function, gb *ssa.BasicBlock) bool {
 				guarded := false
-				for _, cc := range controlConds(b, nil) {
-					bo, isBo := cc.If.Cond.(*ssa.BinOp)
-					if !isBo {
-						continue
-					}
-					op := bo.Op
-					if cc.Edge == 1 {
-						op = negateOp(op)
-					}
-					for _, pr := range [][2]ssa.Value{{bo.X, bo.Y}, {bo.Y, bo.X}} {
-						if !hasField(pr[0], "Status") && !(hasField(pr[0], "Err")) {
+					for _, cc := range controlConds(gb, nil) {
+						bo, isBo := cc.If.Cond.(*ssa.BinOp)
+						if !isBo {
 							continue
 						}
-						if k, isK := constInt(pr[1]); isK && hasField(pr[0], "Status") {
-							name := mergeStatusName(w, k)
-							if op == token.EQL && (name == "MergeStatusNew" || name == "MergeStatusUpdated") {
+						op := bo.Op
+						if cc.Edge == 1 {
+							op = negateOp(op)
+						}
+						for _, pr := range [][2]ssa.Value{{bo.X, bo.Y}, {bo.Y, bo.X}} {
+							if !hasField(pr[0], "Status") && !(hasField(pr[0], "Err")) {
+								continue
+							}
+							if k, isK := constInt(pr[1]); isK && hasField(pr[0], "Status") {
+								name := mergeStatusName(w, k)
+								if op == token.EQL && (name == "MergeStatusNew" || name == "MergeStatusUpdated") {
+									guarded = true
+								}
+							}
+						}
+						// a non-nil test of the entity itself
+						if (bo.Op == token.NEQ && cc.Edge == 0 || bo.Op == token.EQL && cc.Edge == 1) && (isNilConst(bo.Y) || isNilConst(bo.X)) {
+							if _, f2, ok2 := loadOfField(bo.X); ok2 && f2 == "Entity" {
+								guarded = true
+							}
+							if _, f2, ok2 := loadOfField(bo.Y); ok2 && f2 == "Entity" {
 								guarded = true
 							}
 						}
 					}
-					// a non-nil test of the entity itself
-					if (bo.Op == token.NEQ && cc.Edge == 0 || bo.Op == token.EQL && cc.Edge == 1) && (isNilConst(bo.Y) || isNilConst(bo.X)) {
-						if _, f2, ok2 := loadOfField(bo.X); ok2 && f2 == "Entity" {
-							guarded = true
+					if !guarded {
+						// a switch with several cases: the block is entered only through true edges of Status == New / Updated
+						isStatusTest := func(bb *ssa.BasicBlock, succ int) bool {
+							if len(bb.Instrs) == 0 {
+								return false
+							}
+							iff, isIf := bb.Instrs[len(bb.Instrs)-1].(*ssa.If)
+							if !isIf {
+								return false
+							}
+							bo, isBo := iff.Cond.(*ssa.BinOp)
+							if !isBo || !((bo.Op == token.EQL && succ == 0) || (bo.Op == token.NEQ && succ == 1)) {
+								return false
+							}
+							for _, pr := range [][2]ssa.Value{{bo.X, bo.Y}, {bo.Y, bo.X}} {
+								if k, isK := constInt(pr[1]); isK && hasField(pr[0], "Status") {
+									name := mergeStatusName(w, k)
+									if name == "MergeStatusNew" || name == "MergeStatusUpdated" {
+										return true
+									}
+								}
+							}
+							return false
 						}
-						if _, f2, ok2 := loadOfField(bo.Y); ok2 && f2 == "Entity" {
+						if !reachWithoutEdge(gfn.Blocks[0], gb, isStatusTest) {
 							guarded = true
 						}
 					}
+					return guarded
 				}
+				guarded := blockGuarded(fn, b)
 				if !guarded {
-					// a switch with several cases: the block is entered only through true edges of Status == New / Updated
-					isStatusTest := func(bb *ssa.BasicBlock, succ int) bool {
-						if len(bb.Instrs) == 0 {
-							return false
+					// the use sits in an unexported helper that receives the result as a parameter: decided at
+					// every call of the helper (the Status test stays with the caller)
+					isParam := false
+					for _, o := range origins(base) {
+						if o.Kind == "param" {
+							isParam = true
 						}
-						iff, isIf := bb.Instrs[len(bb.Instrs)-1].(*ssa.If)
-						if !isIf {
-							return false
-						}
-						bo, isBo := iff.Cond.(*ssa.BinOp)
-						if !isBo || !((bo.Op == token.EQL && succ == 0) || (bo.Op == token.NEQ && succ == 1)) {
-							return false
-						}
-						for _, pr := range [][2]ssa.Value{{bo.X, bo.Y}, {bo.Y, bo.X}} {
-							if k, isK := constInt(pr[1]); isK && hasField(pr[0], "Status") {
-								name := mergeStatusName(w, k)
-								if name == "MergeStatusNew" || name == "MergeStatusUpdated" {
-									return true
+					}
+					if _, isP := stripConv(base).(*ssa.Parameter); isP {
+						isParam = true
+					}
+					if isParam && fn.Object() != nil && !fn.Object().Exported() {
+						nCalls, allOk := 0, true
+						for _, g := range w.ModFns {
+							if w.isTestHelper(g) || fnPkgPath(g) != fnPkgPath(fn) {
+								continue
+							}
+							for _, gb := range g.Blocks {
+								for _, gi := range gb.Instrs {
+									ci, isCall := gi.(ssa.CallInstruction)
+									if !isCall {
+										continue
+									}
+									cal := ci.Common().StaticCallee()
+									if cal == nil || bodyOf(cal) != bodyOf(fn) {
+										continue
+									}
+									nCalls++
+									if !blockGuarded(g, gb) {
+										allOk = false
+									}
 								}
 							}
 						}
-						return false
-					}
-					if !reachWithoutEdge(fn.Blocks[0], b, isStatusTest) {
-						guarded = true
+						if nCalls > 0 && allOk {
+							guarded = true
+						}
 					}
 				}
 				c.Check(guarded, "R7.11", funcName(fn)+":MergeResult.Entity:"+what, w.InstrPos(ins), "used only for New/Updated results", "the entity of a merge result is used ("+what+") for statuses that carry none: an Invalid report for a refused remote entity has a nil Entity, the "+what+" panics in the merging goroutine and takes the process down")
